@@ -108,6 +108,9 @@ func (cc *clientCxn) RequestClose() {
 			// in a blocking read, close the socket
 			cc.cxn.Close()
 		}
+		// a command that is blocked (BLPOP ...) must not outlive the connection
+		// and take an element nobody will receive
+		cc.cs.unblock("", false)
 		cc.queueStateChange(csTerminate, nil)
 	}
 }
